@@ -1,6 +1,7 @@
 package main
 
 import (
+	"encoding/binary"
 	"bytes"
 	"encoding/hex"
 	"fmt"
@@ -76,7 +77,7 @@ func runC20(res *lp.Result) {
 	rng := lp.NewRng(*seed)
 	var lines, expect []string
 	ask := func(l, want string) { lines = append(lines, l); expect = append(expect, want) }
-	codec := frame.NewCodec()
+	codec := frame.NewRawCodec()
 
 	checkInv := func(f *frame.Frame, isResp bool, trace string) {
 		fl := f.Header.Flags
@@ -106,6 +107,25 @@ func runC20(res *lp.Result) {
 		if err := codec.EncodeFrame(cp, &buf); err != nil {
 			res.Add(lp.Finding{Kind: "violation", What: "frame no longer encodes after applicable mutators: " + err.Error(), Input: trace})
 			return
+		}
+		enc := append([]byte{}, buf.Bytes()...)
+		// "still encodes and round-trips" the way a peer reads it: by the length the header declares — twice back to back
+		hl := cp.Header.Version.FrameHeaderLengthInBytes()
+		if len(enc) >= hl {
+			if declared := int(int32(binary.BigEndian.Uint32(enc[hl-4 : hl]))); declared != len(enc)-hl {
+				res.Add(lp.Finding{Kind: "violation", What: fmt.Sprintf("after applicable mutators the header declares %d body bytes, %d were written", declared, len(enc)-hl), Input: trace})
+			}
+		}
+		two := bytes.NewReader(append(append([]byte{}, enc...), enc...))
+		for k := 0; k < 2; k++ {
+			rf, err := codec.DecodeRawFrame(two)
+			if err == nil {
+				_, err = codec.ConvertFromRawFrame(rf)
+			}
+			if err != nil {
+				res.Add(lp.Finding{Kind: "violation", What: "frame encoded after applicable mutators is not read back by its declared length: " + firstWords(err.Error()), Input: trace})
+				break
+			}
 		}
 		d, err := codec.DecodeFrame(&buf)
 		if err != nil {
